@@ -4,7 +4,7 @@
    universally quantified in each statement, with the hypotheses it needs spelled out. *)
 From Coq Require Import List NArith Bool Arith String.
 From Snow Require Import Lib.Wire Model.B64Url Model.AmpPath Model.CacheURL Model.Rendezvous.
-From Snow Require Import Proofs.AmpPathProofs Proofs.CacheURLProofs Proofs.RendezvousProofs.
+From Snow Require Import Proofs.AmpPathProofs Proofs.CacheURLProofs Proofs.RendezvousPathProofs Proofs.RendezvousProofs.
 Import ListNotations.
 Open Scope N_scope.
 Notation length := List.length.
@@ -291,6 +291,98 @@ Proof.
   - apply Forall_cons; [repeat split; try discriminate; vm_compute; intuition discriminate|apply Forall_nil].
   - vm_compute. repeat split.
 Qed.
+
+(* ---------------- paths with dot and empty segments ---------------- *)
+
+(* url.ResolveReference (as both rendezvous methods use it) never leaves a "." or ".." segment in the request path,
+   whatever the broker URL's path *)
+Theorem C11_resolve_dotfree : forall base ref, Forall nodot (split_on SLASHC (resolve_path base ref)).
+Proof. exact resolve_path_dotfree. Qed.
+
+(* for a base path without dot segments it is the directory of the base path followed by the reference *)
+Theorem C11_resolve_plain : forall base c ref,
+  c <> SLASHC ->
+  Forall nodot (split_on SLASHC (upto_last SLASHC base ++ c :: ref)) ->
+  resolve_path base (c :: ref) = resolve_rel base (c :: ref).
+Proof. exact resolve_path_nodots. Qed.
+
+Example C11_resolve_ex :
+  Forall nodot (split_on SLASHC (upto_last SLASHC (bs "/x//y/z") ++ bs "client")) /\
+  resolve_path (bs "/x//y/z") (bs "client") = bs "/x//y/client" /\
+  resolve_path (bs "/x/./y/../z/") (bs "client") = bs "/x/z/client" /\
+  resolve_path (bs "/../..") (bs "amp/client/0/QQ") = bs "/amp/client/0/QQ" /\
+  resolve_path [] (bs "client") = bs "/client".
+Proof. split; [repeat (apply Forall_cons; [split; reflexivity|]); apply Forall_nil|vm_compute; repeat split]. Qed.
+
+(* CacheURL's path for ANY cache path (empty or rooted) and ANY publisher path without ".." segments: the cleaned cache
+   path, c[/s]/<host>, then the publisher path's segments except the empty and "." ones - nothing else dropped or reordered *)
+Theorem C11_cache_path_all_paths : forall pu cu,
+  (c_epath cu = [] \/ exists cp, c_epath cu = SLASHC :: cp) ->
+  p_hostname pu <> [] -> p_hostname pu <> [DOTC] -> p_hostname pu <> [DOTC; DOTC] ->
+  Forall (fun s => is_dotdot s = false) (split_on SLASHC (p_epath pu)) ->
+  lead_slash (path_join (path_components pu cu (bs "c"%string))) =
+  abs_path (clean_segs true (split_on SLASHC (c_epath cu)) [] ++ middle pu ++ filter keep (split_on SLASHC (p_epath pu))).
+Proof. exact cache_path_general. Qed.
+
+Example C11_cache_path_all_paths_ex :
+  let pu := {| p_scheme := S_HTTPS; p_user := false; p_hostname := bs "b.example"; p_port := [];
+               p_epath := bs "/x//./y/"; p_rawquery := []; p_fragment := [] |} in
+  let cu := {| c_scheme := S_HTTPS; c_user := None; c_hostname := bs "cdn.ampproject.org"; c_port := [];
+               c_epath := bs "/p/../q//"; c_rawquery := []; c_fragment := [] |} in
+  Forall (fun s => is_dotdot s = false) (split_on SLASHC (p_epath pu)) /\
+  path_join (path_components pu cu (bs "c")) = bs "/q/c/s/b.example/x/y".
+Proof. cbv zeta. split; [repeat (apply Forall_cons; [reflexivity|]); apply Forall_nil|vm_compute; reflexivity]. Qed.
+
+(* the inputs that DO lose a path component: a publisher path with a ".." segment given to the exported CacheURL eats the
+   host in front of it (the rendezvous code never does that: C11_resolve_dotfree) *)
+Theorem C11_cache_url_dotdot_loses_host :
+  exists pu cu, p_hostname pu = bs "h.example" /\ p_epath pu = bs "/../x" /\
+    option_map r_rawpath (cache_url (fun x => Some x) (fun x => Some x) (fun _ => []) h34_runes pu cu (bs "c")) = Some (bs "/c/s/x").
+Proof.
+  exists {| p_scheme := S_HTTPS; p_user := false; p_hostname := bs "h.example"; p_port := [];
+            p_epath := bs "/../x"; p_rawquery := []; p_fragment := [] |},
+         {| c_scheme := S_HTTPS; c_user := None; c_hostname := bs "cdn.ampproject.org"; c_port := [];
+            c_epath := bs "/"; c_rawquery := []; c_fragment := [] |}.
+  split; [reflexivity|split; [reflexivity|exact cache_url_dotdot_loses_host]].
+Qed.
+
+(* through an AMP cache, for EVERY broker path and every empty or rooted cache path: the request path is the cleaned cache
+   path, c[/s]/<broker host>, the non-empty segments of the (dot-free) resolved broker path - and it ends in the broker's
+   AMP route followed by the encoded poll, which decodes to the poll *)
+Theorem C11_amp_cache_end_to_end_all_paths :
+  forall (to_unicode to_ascii : bytes -> option bytes) (sha256 : bytes -> bytes) (h34 : bytes -> bool)
+         b cu front cb data q,
+  wf_bytes data -> data <> [] ->
+  (c_epath cu = [] \/ exists cp, c_epath cu = SLASHC :: cp) ->
+  b_hostname b <> [DOTC] -> b_hostname b <> [DOTC; DOTC] ->
+  amp_request to_unicode to_ascii sha256 h34 b (Some cu) front cb data = Some q ->
+  q_path q = abs_path (clean_segs true (split_on SLASHC (c_epath cu)) [] ++ middle (amp_pub_url b cb data) ++
+                       filter nonempty (split_on SLASHC (p_epath (amp_pub_url b cb data)))) /\
+  Forall nodot (split_on SLASHC (p_epath (amp_pub_url b cb data))) /\
+  (exists pre, q_path q = pre ++ AMP_ROUTE ++ encode_path cb data) /\
+  decode_path (encode_path cb data) = POk data.
+Proof. exact amp_cache_end_to_end_general. Qed.
+
+Example C11_amp_cache_end_to_end_all_paths_ex :
+  let b := {| b_scheme := S_HTTPS; b_user := false; b_host := bs "broker.example"; b_hostname := bs "broker.example";
+              b_port := []; b_epath := bs "/x/../y//z" |} in
+  let cu := {| c_scheme := S_HTTPS; c_user := None; c_hostname := bs "cdn.ampproject.org"; c_port := [];
+               c_epath := bs "/p/./q"; c_rawquery := []; c_fragment := [] |} in
+  wf_bytes (bs "ABC") /\ (exists cp, c_epath cu = SLASHC :: cp) /\
+  option_map q_path (amp_request (fun x => Some x) (fun x => Some x) (fun _ => []) h34_runes b (Some cu) [] (repeat 255 9) (bs "ABC")) =
+    Some (bs "/p/q/c/s/broker.example/y/amp/client/0____________/QUJD").
+Proof. cbv zeta. split; [repeat constructor|split; [eexists; reflexivity|vm_compute; reflexivity]]. Qed.
+
+(* the one poll that does not survive a cache: the empty one (its last, empty, path segment is removed by path.Join) *)
+Theorem C11_amp_cache_empty_poll :
+  forall (to_unicode to_ascii : bytes -> option bytes) (sha256 : bytes -> bytes) (h34 : bytes -> bool)
+         b cu front cb q,
+  (c_epath cu = [] \/ exists cp, c_epath cu = SLASHC :: cp) ->
+  b_hostname b <> [DOTC] -> b_hostname b <> [DOTC; DOTC] ->
+  amp_request to_unicode to_ascii sha256 h34 b (Some cu) front cb [] = Some q ->
+  (exists pre, q_path q = pre ++ AMP_ROUTE ++ enc_seg1 cb) /\ decode_path (enc_seg1 cb) = PErr MissingData /\
+  decode_path (encode_path cb []) = POk [].
+Proof. exact amp_cache_empty_poll. Qed.
 
 (* ---------------- client: bounded responses ---------------- *)
 
